@@ -337,6 +337,82 @@ def repeat_render_oracle(ck) -> int:
     return n
 
 
+def odd_nodes_oracle(ck) -> int:
+    """content items that are legal nodes (self-rendering or tagifiable) and at the same time instances of dict / Mapping:
+    inside a document they are nodes — the body is the content's ordinary rendering — never attribute maps of <body>/<html>"""
+    import collections.abc
+    from htmltools import HTMLDocument, Tag, TagList, tags
+    n = 0
+
+    class PlainRepr:
+        def __init__(self, h):
+            self.h = h
+
+        def _repr_html_(self):
+            return self.h
+
+    class PlainTagifiable:
+        def __init__(self, t):
+            self.t = t
+
+        def tagify(self):
+            return self.t()
+
+    class DictRepr(dict):
+        def _repr_html_(self):
+            return "<table>rec</table>"
+
+    class DictTagifiable(dict):
+        def tagify(self):
+            return Tag("dl", Tag("dt", "k"))
+
+    class MapRepr(collections.abc.Mapping):
+        def __init__(self, **kw):
+            self.d = kw
+
+        def __getitem__(self, k):
+            return self.d[k]
+
+        def __iter__(self):
+            return iter(self.d)
+
+        def __len__(self):
+            return len(self.d)
+
+        def _repr_html_(self):
+            return "<table>map</table>"
+
+    odd = [("dict subclass with _repr_html_", lambda: DictRepr(id="r1", lang="en"), lambda: PlainRepr("<table>rec</table>")),
+           ("empty dict subclass with _repr_html_", lambda: DictRepr(), lambda: PlainRepr("<table>rec</table>")),
+           ("dict subclass with tagify", lambda: DictTagifiable({"class": "c"}), lambda: PlainTagifiable(lambda: Tag("dl", Tag("dt", "k")))),
+           ("Mapping with _repr_html_", lambda: MapRepr(title="t"), lambda: PlainRepr("<table>map</table>"))]
+    shapes = [("fragment of several items", lambda w: HTMLDocument("a", w, tags.p("b"))),
+              ("sole item", lambda w: HTMLDocument(w)),
+              ("inside a list", lambda w: HTMLDocument(TagList(w, "z"), lang="en")),
+              ("appended later", lambda w: (lambda d: (d.append(w), d)[1])(HTMLDocument(tags.p("first")))),
+              ("inside a lone body's child list", lambda w: HTMLDocument(tags.body(TagList("x", w))))]
+    for olabel, mk, plain in odd:
+        for slabel, shape in shapes:
+            n += 1
+            ck.holds_checked += 1
+            try:
+                want = shape(plain()).render()["html"]
+            except Exception as e:  # noqa: BLE001
+                ck.py_violation(f"odd_nodes {olabel} / {slabel}", f"raised {type(e).__name__}: {e}", "the reference document (ordinary object) raised", py=olabel)
+                continue
+            try:
+                got = shape(mk()).render()["html"]
+            except Exception as e:  # noqa: BLE001
+                got = f"raised {type(e).__name__}: {e}"
+            if got != want:
+                ck.py_violation(f"odd_nodes {olabel} / {slabel}", got[:400],
+                                f"a content item that is a {olabel} ({slabel}) is not rendered as the node it is: {got[:300]!r}; the same document with an "
+                                f"ordinary object that renders alike: {want[:300]!r}",
+                                py=f"class Rec(dict):\n    def _repr_html_(self): return '<table>rec</table>'\n# {olabel}; {slabel}\nHTMLDocument('a', Rec(id='r1', lang='en'), tags.p('b')).render()['html']")
+    ck.exhaustive_scopes.append({"scope": "content items that are nodes and also dict / Mapping instances: 4 kinds x 5 places in a document", "n": n, "exhaustive": True})
+    return n
+
+
 def run(tier: str) -> int:
     ck = core.Check(PID, tier, PROP_FILES)
     t0 = time.time()
@@ -564,6 +640,7 @@ def run(tier: str) -> int:
     ck.add_src(['TagAttrDict_initC11', 'Tag_insertC11', 'Tag_extendC11', 'Tag_appendC11', 'HTMLDocument_initC11', 'HTMLDocument_appendC11'], quick=150, thorough=800)
     __import__("srctie_c11").add_src_c11(ck, ['HTMLDocument_hoist_head_contentC11', 'HTMLDocument_gen_html_tag_treeC11', 'HTMLDocument_renderC11', 'Tag_renderC11'], thorough=1500)
     ck.extra_cov["repeat_render_cases"] = repeat_render_oracle(ck)
+    ck.extra_cov["odd_node_cases"] = odd_nodes_oracle(ck)
     ck.correspond(holds=True)
     phase["model_and_statement"] = round(time.time() - t1, 1)
     ck.extra_cov["phase_s"] = phase
